@@ -94,6 +94,10 @@ let () =
            let pre = if pre = "-" then "" else pre in
            let tok = label_token (codes pre) (codes name) width in
            Printf.printf "%s\n" (String.concat "" (List.map (fun c -> String.make 1 (Char.chr (int_of_nat c))) tok))
+         | "ABFHIST" ->
+           let hf = nz () in let n = ni () in
+           let w = List.init n (fun _ -> nz ()) in
+           Printf.printf "%s\n" (String.concat " " (List.map (fun it -> string_of_int (int_of_z it)) (abf_hist hf None w)))
          | "OUT" ->
            let rf = nz () in let itr = nz () in let nbs = ni () in
            let bs = List.init nbs (fun _ -> let b = nz () in let f = nz () in (b, f)) in
@@ -104,7 +108,7 @@ let () =
                (match f with FState -> "state" | FColvar -> "colvar" | FBias b -> "b" ^ string_of_int (int_of_z b)) ^ "@" ^ string_of_int (int_of_z it)) w))
          | "RUNAVEV" ->
            let kind = (match next () with
-               | "scalar" -> KScalar | "periodic" -> let p = nf () in KPeriodic (p, 0.0) | "vector3" -> KVector3 | _ -> KUnit3) in
+               | "scalar" -> KScalar | "periodic" -> let p = nf () in KPeriodic (p, 0.0) | "vector3" -> KVector3 | "quat" -> KQuat | _ -> KUnit3) in
            let l = nn () in let stride = nn () in let it0 = nn () in let dim = ni () in let n = ni () in
            let h = List.init n (fun _ -> let t = nn () in let x = List.init dim (fun _ -> nf ()) in (t, x)) in
            let r = runaveV_run fops (lv_ops fops kind) l stride it0 rv0 None h in
